@@ -198,8 +198,30 @@ func expiry(r *core.Run) {
 		}
 		j := w.Send(f.First, Ingress{Kind: InHost, Src: f.SH.UDPAddr(int(f.SPort))}, f.Raw, hook)
 		n++
-		// judged at the instant of each traversal: Send logs sequentially, so judge inside
-		_ = j
+		if r.Prop == "C10" && j.SCMP && !r.Failed() {
+			// some router answered (path expired): the answer must reach the source host unless a
+			// hop field on the way back has itself expired in the meantime
+			var gen *HopRec
+			for i := range j.Hops {
+				if j.Hops[i].Res.SlowPath && !j.Hops[i].Reply {
+					gen = &j.Hops[i]
+					break
+				}
+			}
+			last := j.Hops[len(j.Hops)-1]
+			if gen != nil {
+				r.Covered(fmt.Sprintf("expired-reply/ingress%d/code%d", gen.In.Kind, gen.Res.SPCode))
+			}
+			if j.Delivered && j.DstAS == f.Src && j.Dst.Addr() == f.SH.Addr {
+				r.Probe("c10-expiry-reply-delivered")
+			} else if last.Res.SlowPath && int(last.Res.SPCode) == codePathExpiredV {
+				r.Probe("c10-expiry-reply-expired-on-the-way-back")
+			} else if gen != nil {
+				r.Fail("c10-reply-delivery", fmt.Sprintf("reply-not-delivered:code%d:ingress%d", gen.Res.SPCode, gen.In.Kind),
+					"SCMP error (type %d code %d) generated by %s %s for a packet that arrived over %v was not delivered to the source host: %s",
+					gen.Res.SPType, gen.Res.SPCode, gen.Router.AS.IA, gen.Router.Name, gen.In, lastHop(j))
+			}
+		}
 		if r.Chance("clock.jump", 1, 4) {
 			d := time.Duration(1+r.Choice("jump.s", 600)) * time.Second
 			time.Sleep(d)
